@@ -125,6 +125,7 @@ class ClientDriver(ReorgDriver):
         def rpc(method, params):
             if method == 'getrawmempool':
                 self.mp_list_version = d.version
+                self.mp_list_height = d.height
                 self.mp_list_at = w.sim.steps
                 srv = w.server
                 # "the index was at that height": flushed, nothing of a flush still in flight
@@ -135,6 +136,15 @@ class ClientDriver(ReorgDriver):
                                 for x in w.sim.workers))
             return orig_rpc(method, params)
         d.rpc = rpc
+        self.mp_list_height = None
+        self.daemon_shrunk = False
+        orig_set_tip = d.set_tip
+
+        def set_tip(block):
+            if block is not None and d.tip is not None and block.height < d.height:
+                self.daemon_shrunk = True
+            return orig_set_tip(block)
+        d.set_tip = set_tip
 
     def violate(self, prop, clause, message, keys=()):
         super().violate(prop, clause, message, keys)
@@ -199,6 +209,12 @@ class ClientDriver(ReorgDriver):
         srv = w.server
         mp = srv.mempool
         d = w.daemon
+        # C20, system side: "a mempool refresh at h" is a refresh whose listing was taken while the daemon was
+        # at height h (heights only ever rose in this run, so the tracker's height re-check settles it)
+        if self.mp_list_height is not None and height != self.mp_list_height and not self.daemon_shrunk:
+            self.violate('C20', 'organic.refresh_height_label', f'on_mempool(.., {height}) hands over a refresh '
+                         f'whose mempool listing was taken while the daemon was at height {self.mp_list_height}')
+        self.probe('c20.refresh_labels_checked')
         # C09: structural invariants of the tracker, whatever raced
         self.check_mempool_invariants('refresh')
         # C08: touched completeness relative to the tracker's own previous view
